@@ -254,6 +254,15 @@ def directed_cases(tier):
                 steps += [{"s": "open", "dir": d, "start": st0, "salt": 2000 + j, "uuid": "sess%d" % (j + 1), "mode": "later" if j != 1 else "earlier"},
                           {"s": "write", "op": {"op": "w", "idx": 0, "len": ln, "cid": j}, "expect": "ok"}, {"s": "close"}, {"s": "read"}]
             out.append({"cfg": cfg, "ndirs": 2, "steps": steps})
+        # a recording continued on a second disk in the middle of a file period: the directory listed FIRST holds the newer
+        # half, and the two halves are one gap-free stretch (one block, one vector read)
+        # (gapped mode: a continuous-mode file claims every slot of its period, so two directories cannot share a period)
+        for dirs in ((1, 0), (0, 1)) if not cont else ():
+            steps = []
+            for j, (d, st0, ln) in enumerate(zip(dirs, (b + 20, b + 270), (250, 180))):
+                steps += [{"s": "open", "dir": d, "start": st0, "salt": 2500 + j, "uuid": "sess6%d" % (j + 1), "mode": "later"},
+                          {"s": "write", "op": {"op": "w", "idx": 0, "len": ln, "cid": j}, "expect": "ok"}, {"s": "close"}, {"s": "read"}]
+            out.append({"cfg": cfg, "ndirs": 2, "steps": steps})
         # one reader stays open while later sessions create the NEXT subdirectory (which the reader has already looked for,
         # in vain, when it read ahead) and an EARLIER one
         steps = []
@@ -777,6 +786,26 @@ def _read_queries(cfg, rd, kept, definite, maybe, windows, fail, si, open_win, v
                 ref = [v for k, v in whole.items() if int(k) == k0]
                 if ref and np.ascontiguousarray(vec).astype(sd, copy=False).tobytes() != np.ascontiguousarray(ref[0][:n_]).astype(sd, copy=False).tobytes():
                     fail("union-read-vector-differs", "step %d: read_vector_raw(%d,%d) differs from read()" % (si, k0, n_))
+        # ... and so must a vector read over a stretch that was WRITTEN without a gap (by whichever sessions, into whichever
+        # files and directories): to the reader it is one block
+        vis = sorted(k for k in definite if not (open_win and open_win[0] <= k < open_win[1]))
+        runs = []
+        for k in vis:
+            if runs and runs[-1][1] + 1 == k:
+                runs[-1][1] = k
+            else:
+                runs.append([k, k])
+        for r0, r1 in sorted(runs, key=lambda r: r[0] - r[1])[:2]:
+            n_ = min(r1 - r0 + 1, 4 * spf, 1 << 16)
+            try:
+                with rfharness.quiet_fds():
+                    vec = rd.read_vector_raw(r0, n_, "ch0")
+            except Exception as e:
+                fail("union-read-vector-fails", "step %d: read_vector_raw(%d,%d) over samples written without a gap: %s: %s" % (si, r0, n_, type(e).__name__, e))
+                break
+            if np.ascontiguousarray(vec).astype(sd, copy=False).tobytes() != b"".join(definite[r0 + i] for i in range(n_)):
+                fail("union-read-wrong-value", "step %d: read_vector_raw(%d,%d) differs from what was written" % (si, r0, n_))
+                break
         for k, ln in blocks.items():
             k, ln = int(k), int(ln)
             for c0 in range(k, k + ln, 1 << 18):  # long blocks are read in pieces
